@@ -167,7 +167,7 @@ func hasManagedFields(obj string) bool {
 	return ok
 }
 
-func (pl plan) tags(in Input) []string {
+func (pl plan) tags(in Input, effective []string) []string {
 	t := []string{"mode:start(monitor created on existing objects, real shared informer started)",
 		fmt.Sprintf("start:existing-objects=%d", len(pl.existing)),
 		fmt.Sprintf("start:cluster-operations-after-start=%d", len(pl.cluster)),
@@ -184,8 +184,8 @@ func (pl plan) tags(in Input) []string {
 	if mf {
 		t = append(t, "start:some-existing-object-has-managedFields")
 	}
-	listed := in.TypesUnset
-	for _, ty := range in.Types {
+	listed := false
+	for _, ty := range effective {
 		listed = listed || ty == "Added"
 	}
 	if len(pl.existing) > 0 {
@@ -373,7 +373,7 @@ func runStart(ctx context.Context, in Input, mc *kem.MonitorConfig) Obs {
 		taken = len(events)
 		for _, ke := range fresh {
 			f := Fired{Type: "?", State: unknownState}
-			if len(ke.WatchEvents) == 1 && ke.Type == kemtypes.TypeEvent && ke.MonitorId == "c08-monitor" {
+			if len(ke.WatchEvents) == 1 && ke.Type == kemtypes.TypeEvent && ke.MonitorId == mc.Metadata.MonitorId {
 				f.Type = string(ke.WatchEvents[0])
 			}
 			if len(ke.Objects) == 1 {
